@@ -1,0 +1,83 @@
+//go:build verif
+
+package container
+
+// Contracts for the deductive verifier in /verif (govc). Comment-only file.
+
+//@ // representation invariant of a Reader: stored tokens are non-nil
+//@ pure func wfReader(ctn Reader) bool =
+//@     forall k cid.Cid :: has(ctn, k) ==> ctn[k] != nil && (ctn[k] is *delegation.Token ==> ctn[k].(*delegation.Token) != nil)
+//@
+//@ // ---- C17: an entry is added only under the CID of its bytes and only after verification -----------------
+//@ func (Reader).addToken
+//@   requires ctn != nil && modelsWF()
+//@   use node_sizes, node_map_children
+//@   ensures [C17] added: result == nil ==> has(ctn, ucanCid(bytes(data))) && genericVerified(decodeWith(dagcbor.Decode, bytes(data)), ctn[ucanCid(bytes(data))])
+//@   ensures [C17] others: forall k cid.Cid :: k != ucanCid(bytes(data)) ==> has(ctn, k) == old(has(ctn, k)) && ctn[k] == old(ctn[k])
+//@   ensures [C17] rejected: result != nil ==> (forall k cid.Cid :: has(ctn, k) == old(has(ctn, k)) && ctn[k] == old(ctn[k]))
+//@   assigns ctn
+//@
+//@ func (Reader).GetToken
+//@   ensures [C17] found: result1 == nil ==> has(ctn, cid) && result0 == ctn[cid]
+//@   ensures [C17] missing: !has(ctn, cid) ==> result1 != nil
+//@   assigns [C20] nothing
+//@ // the delegation.Loader shape: no state change, a token whenever err == nil
+//@ func (Reader).GetDelegation
+//@   requires wfReader(ctn)
+//@   ensures [C17,C01] loader: result1 == nil ==> result0 != nil && has(ctn, cid) && box(result0) == ctn[cid]
+//@   assigns [C20] nothing
+//@
+//@ // ---- C17 / C18: the byte-slice variants are the stream variants over the same bytes ---------------------
+//@ // cborErr / cborHas, carErr / carHas name the outcome of the stream readers as functions of the content
+//@ ghost func cborErr(c string) error
+//@ ghost func cborHas(c string, k cid.Cid) bool
+//@ ghost func carErr(c string) error
+//@ ghost func carHas(c string, k cid.Cid) bool
+//@ func FromCborReader
+//@   trusted
+//@   requires r != nil
+//@   ensures result1 == cborErr(content(r))
+//@   ensures result1 == nil ==> result0 != nil && (forall k cid.Cid :: has(result0, k) == cborHas(content(r), k))
+//@ func FromCarReader
+//@   trusted
+//@   requires r != nil
+//@   ensures result1 == carErr(content(r))
+//@   ensures result1 == nil ==> result0 != nil && (forall k cid.Cid :: has(result0, k) == carHas(content(r), k))
+//@ func FromCbor
+//@   ensures [C17,C18] same: result1 == cborErr(bytes(data)) && (result1 == nil ==> (forall k cid.Cid :: has(result0, k) == cborHas(bytes(data), k)))
+//@ func FromCborBase64Reader
+//@   requires r != nil
+//@   ensures [C17,C18] same: result1 == cborErr(b64dec(content(r))) && (result1 == nil ==> (forall k cid.Cid :: has(result0, k) == cborHas(b64dec(content(r)), k)))
+//@ func FromCborBase64
+//@   ensures [C17,C18] same: result1 == cborErr(b64dec(bytes(data))) && (result1 == nil ==> (forall k cid.Cid :: has(result0, k) == cborHas(b64dec(bytes(data)), k)))
+//@ func FromCar
+//@   ensures [C17,C18] same: result1 == carErr(bytes(data)) && (result1 == nil ==> (forall k cid.Cid :: has(result0, k) == carHas(bytes(data), k)))
+//@ func FromCarBase64Reader
+//@   requires r != nil
+//@   ensures [C17,C18] same: result1 == carErr(b64dec(content(r))) && (result1 == nil ==> (forall k cid.Cid :: has(result0, k) == carHas(b64dec(content(r)), k)))
+//@ func FromCarBase64
+//@   ensures [C17,C18] same: result1 == carErr(b64dec(bytes(data))) && (result1 == nil ==> (forall k cid.Cid :: has(result0, k) == carHas(b64dec(bytes(data)), k)))
+//@
+//@ // ---- C18: writers surface every fault of the sink, including the final flush of the base64 encoder ------
+//@ func (Writer).ToCborWriter
+//@   requires w != nil
+//@   ensures [C18] fault: result == nil ==> wfailed(w) == old(wfailed(w))
+//@   assigns written(w), wfailed(w)
+//@ func (Writer).ToCborWriter$1
+//@   requires ma != nil
+//@ func (Writer).ToCborWriter$1$1
+//@   requires la != nil
+//@   loop 0: invariant true
+//@ func (Writer).ToCarWriter
+//@   trusted
+//@   requires w != nil
+//@   ensures result == nil ==> wfailed(w) == old(wfailed(w))
+//@   assigns written(w), wfailed(w)
+//@ func (Writer).ToCborBase64Writer
+//@   requires w != nil
+//@   ensures [C18] flushed: result == nil ==> isClosed(encoderFor(w)) && closedWith(encoderFor(w)) == nil
+//@   assigns anything
+//@ func (Writer).ToCarBase64Writer
+//@   requires w != nil
+//@   ensures [C18] flushed: result == nil ==> isClosed(encoderFor(w)) && closedWith(encoderFor(w)) == nil
+//@   assigns anything
